@@ -128,6 +128,9 @@ func C06(tier string) int {
 			owners, del = nil, "deleteWidget("
 		}
 		fs := newFkScenario(wiring, owners, []string{"#w1", "#w2", "#w3"}, "3 referrers, (op; delete of the target) per tx, no-trace oracle")
+		if wiring == fkSelfCascade || wiring == fkSelfIdxCascade {
+			fs.cycleCrash = probeCycleCrashes() // an unbounded recursion over a reference cycle must not kill the checker
+		}
 		var fprogs [][]int
 		for i, a := range fs.Ops() {
 			fprogs = append(fprogs, []int{i})
